@@ -1192,15 +1192,14 @@ class HfpAgDriver(RfcommDriver):
         got = await self.atk.until(lambda: bytes(rfs.rx) if rfs.rx.endswith(b'\r\n') and len(rfs.rx) >= 6 else None)
         if got == b'\r\nOK\r\n':
             return []
-        if got is not None and got.endswith(b'\r\n\r\nOK\r\n'):
-            # the command got its OK; what precedes are late answers to earlier hostile lines
-            self.env.r.ev('late_answers_to_earlier_lines')
-            return []
         ag = self.env.ag
         stuck = bytes(ag.read_buffer[:60]) if ag is not None else b''
-        if got is None and not rfs.rx:
+        unread = ag is not None and b'AT+CMEE=1\r' in ag.read_buffer
+        if (got is None and not rfs.rx) or unread:
+            # (when the reference line is still in the victim's buffer, whatever arrived is the late answer to
+            # an earlier hostile line, not an answer to AT+CMEE=1)
             symptom = 'no-answer-after-garbage'
-            if ag is not None and b'AT+CMEE=1\r' in ag.read_buffer:
+            if unread:
                 # diagnosis only (names the key, does not decide): is the line at the head of the
                 # victim's buffer one its own parser rejects, or a parseable one left unread?
                 from bumble import hfp
@@ -1211,8 +1210,8 @@ class HfpAgDriver(RfcommDriver):
                 except Exception:
                     symptom = 'unparseable-line-never-consumed'
             return self.channel_closed_by_victim() or [
-                (symptom, f'AT+CMEE=1 got no final result code; AG read_buffer starts with {stuck!r} '
-                          f'({len(ag.read_buffer) if ag else 0} bytes)')]
+                (symptom, f'AT+CMEE=1 got no final result code (received {bytes(rfs.rx)!r}); AG read_buffer starts with '
+                          f'{stuck!r} ({len(ag.read_buffer) if ag else 0} bytes)')]
         return [('wrong-answer-after-garbage', f'AT+CMEE=1 answered {bytes(rfs.rx)!r}')]
 
     async def reference(self):
